@@ -344,6 +344,18 @@ func (fc *fileCtx) call(call *ast.CallExpr) {
 		return
 	}
 
+	// time.Sleep(d): the task must announce that it blocks on the simulated clock
+	if sel, ok := call.Fun.(*ast.SelectorExpr); ok {
+		if id, ok := sel.X.(*ast.Ident); ok {
+			if pn, ok := info.Uses[id].(*types.PkgName); ok && pn.Imported().Path() == "time" && sel.Sel.Name == "Sleep" {
+				fc.replace(call.Fun.Pos(), call.Fun.End(), "zzverifsim.Sleep")
+				stats["time.Sleep"]++
+
+				return
+			}
+		}
+	}
+
 	// rand.Float64()
 	if sel, ok := call.Fun.(*ast.SelectorExpr); ok {
 		if id, ok := sel.X.(*ast.Ident); ok {
